@@ -425,7 +425,10 @@ func (its *jsonPrimitive) createJSONObject(parent jsonType, value interface{}, t
 	fields := reflect.TypeOf(value)
 
 	if target.Kind() == reflect.Map {
-		mapValue := value.(map[string]interface{})
+		mapValue, ok := value.(map[string]interface{})
+		if !ok { // a map of another Go type, e.g., map[string]int
+			mapValue = toStringKeyedMap(target)
+		}
 		for _, k := range sortedKeys(mapValue) {
 			val := reflect.ValueOf(mapValue[k])
 			its.addValueToJSONObject(jo, k, val, ts)
@@ -449,6 +452,15 @@ func sortedKeys(m map[string]interface{}) []string {
 	}
 	sort.Strings(keys)
 	return keys
+}
+
+// toStringKeyedMap copies a map of any Go type into a map[string]interface{}; keys are printed as JSON does.
+func toStringKeyedMap(m reflect.Value) map[string]interface{} {
+	ret := make(map[string]interface{}, m.Len())
+	for _, k := range m.MapKeys() {
+		ret[fmt.Sprint(k.Interface())] = m.MapIndex(k).Interface()
+	}
+	return ret
 }
 
 func (its *jsonPrimitive) addValueToJSONObject(jo *jsonObject, key string, value reflect.Value, ts *model.Timestamp) {
